@@ -36,6 +36,9 @@ type C07Req struct {
 	// Rush: the request is issued without waiting for the system to settle after the previous
 	// one, so the asynchronous cleanup of a plugin dropped there races with it.
 	Rush bool `json:"rush,omitempty"`
+	// Upd: this plugin (position) issues an unsolicited UpdateContainers once the request is under way:
+	// it is then parked inside the runtime, behind the request, when the fault strikes
+	Upd *int `json:"upd,omitempty"`
 	// Also: a second plugin (position) whose connection is killed before the request, so that two
 	// plugins are found dead in the same request.
 	Also *int `json:"also,omitempty"`
@@ -127,6 +130,13 @@ func c07Gen(rng *rand.Rand, conf string, idx int) any {
 		}
 		if i > 0 && conf != "healthy" && rq.Also == nil && (rq.Fault == nil || rq.Fault.When == "during") && rng.Intn(3) == 0 {
 			rq.Rush = true
+		}
+		if conf == "faults" && rq.Fault != nil && rng.Intn(5) == 0 {
+			u := rq.Fault.Victim
+			if rng.Intn(4) == 0 {
+				u = rng.Intn(n)
+			}
+			rq.Upd = &u
 		}
 		w.Reqs = append(w.Reqs, rq)
 	}
@@ -274,6 +284,20 @@ func c07Exec(t *testing.T, w *C07W, sc SchedCfg, base *c07Transcript, rec *c07Tr
 			}
 			e.S.Probe("C07.fault." + f.Kind + "." + f.When)
 		}
+		started := make([]bool, len(w.Reqs))
+		for i, rq := range w.Reqs {
+			if rq.Upd == nil {
+				continue
+			}
+			i, p := i, plugs[*rq.Upd]
+			e.Task(fmt.Sprintf("unsolicited-update-q%d", i), func() {
+				e.S.ParkOwned(fmt.Sprintf("upd-gate:q%d", i), "upd:"+p.Name, func() bool { return started[i] })
+				u := &api.ContainerUpdate{ContainerId: fmt.Sprintf("unsolicited-%d", i)}
+				u.SetLinuxCPUShares(7)
+				p.Stub.UpdateContainers([]*api.ContainerUpdate{u}) // whatever it returns; it must return
+				e.S.Probe("C07.unsolicited-update-issued-during-a-request")
+			})
+		}
 		e.Task("caller", func() {
 			for i, rq := range w.Reqs {
 				if !rq.Rush {
@@ -307,6 +331,7 @@ func c07Exec(t *testing.T, w *C07W, sc SchedCfg, base *c07Transcript, rec *c07Tr
 				o := &c07Out{E0: len(h.entriesCopy())}
 				outs[i] = o
 				cur, inflight = i, true
+				started[i] = true
 				if f != nil && f.When == "during" && f.Kind != "hang" && f.Kind != "error" {
 					i, f := i, f
 					e.S.Add(&simItem{Key: fmt.Sprintf("fault:%s:%s:%s", f.Kind, w.Plugins[f.Victim].Name, id), Owner: "fault",
